@@ -572,6 +572,14 @@ func (kr *kindRules) roundConvert(w *World, f *ssa.Function, x *ssa.Convert, pos
 		}
 		return
 	}
+	// a quadkey reaches 2^62: a float64 detour drops its low bits above 2^53
+	if isFloatType(x.Type()) && isIntType(x.X.Type()) {
+		if a := kr.ke.Eval(x.X); a != nil && a.Scalar == ks(kQK) {
+			ord["narrow"]++
+			kr.add("KIND-STORE", f, fmt.Sprintf("narrowing conversion #%d of a %s index", ord["narrow"], a.Scalar), pos, Violated, fmt.Sprintf("a quadkey (up to 2^62 at zoom 31) is converted to %s, which holds 53 bits: neighbouring keys above 2^53 become equal (%s)", x.Type().String(), shortInstr(x)))
+		}
+		return
+	}
 	if !isIntType(x.Type()) || !isFloatType(x.X.Type()) {
 		return
 	}
